@@ -114,11 +114,59 @@ func runAlias(kv map[string]string) string {
 		}
 	}
 	served := t.served() - served0
+	// what the two instances have in common AFTER they shot: whatever the shots cached in shared objects (templates, parsed
+	// values, compiled expressions …) is reachable by both from then on
+	after := c11lib.Shared(c11lib.Walk(m.Guns[0], a1), c11lib.Walk(m.Guns[1], a2))
+	plain, closures := splitClosures(shared)
+	plainAfter, closuresAfter := splitClosures(after)
+	late := c11lib.NotIn(plainAfter, plain)
+	// second round: each instance shoots once more; a unit published by the first round (or an old one) that changes now
+	// is written by instances while the other one can reach it
+	var lateMut []*c11lib.Unit
+	a4, ok4, h4 := m.Acquire(5 * time.Second)
+	a5, ok5, h5 := m.Acquire(5 * time.Second)
+	if ok4 && ok5 && !h4 && !h5 {
+		all := append(append([]*c11lib.Unit(nil), plain...), late...)
+		for gi, am := range []core.Ammo{a4, a5} {
+			b4 := make([]uint64, len(all))
+			ok := make([]bool, len(all))
+			for i, u := range all {
+				b4[i], ok[i] = c11lib.Snapshot(u)
+			}
+			m.Guns[gi].Shoot(am)
+			for i, u := range all {
+				h, k := c11lib.Snapshot(u)
+				if k && ok[i] && h != b4[i] {
+					if i < len(plain) {
+						mutated = append(mutated, u)
+					} else {
+						lateMut = append(lateMut, u)
+					}
+				}
+			}
+		}
+		m.Provider.Release(a4)
+		m.Provider.Release(a5)
+	}
 	m.Provider.Release(a1)
 	m.Provider.Release(a2)
 	m.Provider.Release(a3)
-	return fmt.Sprintf("guns=%s ammo=%s served=%s shared=%s mutated=%s", sameObj(m.Guns[0], m.Guns[1]), ammoRel,
-		pos(served), orDash(strings.Join(c11lib.Labels(shared), ",")), orDash(strings.Join(c11lib.Labels(mutated), ",")))
+	return fmt.Sprintf("guns=%s ammo=%s served=%s shared=%s mutated=%s late=%s latemut=%s closures=%s", sameObj(m.Guns[0], m.Guns[1]), ammoRel,
+		pos(served), orDash(strings.Join(c11lib.Labels(plain), ",")), orDash(strings.Join(c11lib.Labels(mutated), ",")),
+		orDash(strings.Join(c11lib.Labels(late), ",")), orDash(strings.Join(c11lib.Labels(lateMut), ",")),
+		orDash(strings.Join(c11lib.Labels(append(closures, closuresAfter...)), ",")))
+}
+
+// splitClosures: closure objects (func values with captured variables) apart from data units
+func splitClosures(us []*c11lib.Unit) (plain, closures []*c11lib.Unit) {
+	for _, u := range us {
+		if u.IsClosure() {
+			closures = append(closures, u)
+		} else {
+			plain = append(plain, u)
+		}
+	}
+	return
 }
 
 func pos(n int64) string {
@@ -511,6 +559,8 @@ func runLocal(kv map[string]string) string {
 		return runHandover(kv)
 	case "guns":
 		return runGuns(kv)
+	case "isolate":
+		return runIsolate(kv)
 	}
 	return "ENV unknown mode"
 }
@@ -542,7 +592,7 @@ func childBinary() (string, string) {
 func run(input string) string {
 	kv := drv.KV(input)
 	switch kv["mode"] {
-	case "alias", "guns", "handover":
+	case "alias", "guns", "handover", "isolate":
 		return runDeterministic(input, kv)
 	case "race", "hammer":
 		return runRace(input)
@@ -564,6 +614,12 @@ func class(input, obs string) string {
 			return ""
 		}
 		return "hammer/" + kv["obj"]
+	}
+	if kv["mode"] == "isolate" {
+		if !strings.HasPrefix(obs, "together=") {
+			return ""
+		}
+		return "isolate/" + kv["kind"]
 	}
 	if kv["mode"] == "handover" {
 		if !strings.Contains(obs, "reports=") || strings.Contains(obs, "reports=0 ") {
@@ -604,7 +660,7 @@ func class(input, obs string) string {
 var httpKinds = []string{"uri", "uripost", "raw", "httpjson"}
 
 var scenFails = map[string][]string{
-	"httpscen": {"none", "status", "conn", "post", "postbody", "postjson", "tmpl", "pre", "body"},
+	"httpscen": {"none", "status", "conn", "post", "postbody", "postjson", "posthdr", "postxpath", "tmpl", "pre", "body"},
 	"grpcscen": {"none", "conn", "post", "postbody", "tmpl", "pre", "call", "payload"},
 }
 
@@ -665,6 +721,61 @@ func handoverExhaustive() []string {
 
 func pick(r *rand.Rand, xs []string) string { return xs[r.Intn(len(xs))] }
 
+// isolateCase: 2..4 instances shooting in a random order; every shot's first response carries an X-Tok header of its own
+// random length (0..14 characters; sometimes no header at all); the scenario extracts it through 2..5 random modifier
+// chains (lower, upper, replace, substr with negative / omitted / out-of-range bounds).
+func isolateCase(r *rand.Rand) string {
+	const letters = "ABabCDcdEFefXYxyz0123456789"
+	word := func(n int) string {
+		b := make([]byte, n)
+		for i := range b {
+			b[i] = letters[r.Intn(len(letters))]
+		}
+		return string(b)
+	}
+	n := 2 + r.Intn(3)
+	shots := 3 + r.Intn(4)
+	order := make([]byte, shots)
+	for i := range order {
+		order[i] = byte('0' + r.Intn(n))
+	}
+	order[0], order[1] = '0', '1'
+	toks := make([]string, shots)
+	for i := range toks {
+		switch r.Intn(8) {
+		case 0:
+			toks[i] = "_"
+		default:
+			toks[i] = word(1 + r.Intn(14))
+		}
+	}
+	mod := func() string {
+		switch r.Intn(6) {
+		case 0:
+			return "lower"
+		case 1:
+			return "upper"
+		case 2:
+			return fmt.Sprintf("replace(%s,%s)", word(1+r.Intn(2)), word(r.Intn(3)))
+		case 3:
+			return fmt.Sprintf("substr(%d)", r.Intn(13)-6)
+		default:
+			return fmt.Sprintf("substr(%d,%d)", r.Intn(13)-6, r.Intn(19)-6)
+		}
+	}
+	chains := make([]string, 2+r.Intn(4))
+	for i := range chains {
+		ms := make([]string, 1+r.Intn(3))
+		for j := range ms {
+			ms[j] = mod()
+		}
+		chains[i] = strings.Join(ms, "|")
+	}
+	// always one chain that counts from the end: the commonest way to cut a token out of a header
+	chains[0] = fmt.Sprintf("substr(%d)", -1-r.Intn(6))
+	return fmt.Sprintf("mode=isolate kind=httpscen n=%d order=%s toks=%s chains=%s", n, order, strings.Join(toks, ";"), strings.Join(chains, ";"))
+}
+
 // raceVariant: one whole-pool case with a random supported variant of the kind.
 func raceVariant(r *rand.Rand, k string, n, shots int) string {
 	c := fmt.Sprintf("mode=race kind=%s n=%d shots=%d", k, n, shots)
@@ -700,6 +811,9 @@ func genPlain(r *rand.Rand, tier string) []string {
 	out := []string{"mode=locks"}
 	out = append(out, aliasCases()...)
 	out = append(out, handoverCases(r, 1)...)
+	for i := 0; i < 6; i++ {
+		out = append(out, isolateCase(r))
+	}
 	for _, k := range []string{"uri", "httpscen", "grpcjson", "grpcscen"} {
 		for _, n := range []int{1, 2, 4, 8} {
 			out = append(out, fmt.Sprintf("mode=guns kind=%s n=%d", k, n))
@@ -731,6 +845,9 @@ func genPlain(r *rand.Rand, tier string) []string {
 	if tier == "thorough" {
 		out = append(out, handoverCases(r, 6)...)
 		out = append(out, handoverExhaustive()...)
+		for i := 0; i < 60; i++ {
+			out = append(out, isolateCase(r))
+		}
 		for i := 0; i < 12; i++ {
 			for _, o := range hammerObjs {
 				out = append(out, fmt.Sprintf("mode=hammer obj=%s n=%d calls=%d", o, 2+r.Intn(15), 1000+r.Intn(11000)))
@@ -771,6 +888,9 @@ func genRace(r *rand.Rand, tier string) []string {
 		out = append(out, "mode=alias kind="+k)
 	}
 	out = append(out, handoverCases(r, 1)...)
+	for i := 0; i < 3; i++ {
+		out = append(out, isolateCase(r))
+	}
 	for _, o := range hammerObjs {
 		out = append(out, fmt.Sprintf("mode=hammer obj=%s n=%d calls=%d", o, 2+r.Intn(5), 2000+r.Intn(2000)))
 	}
@@ -783,6 +903,9 @@ func genRace(r *rand.Rand, tier string) []string {
 	if tier == "thorough" {
 		out = append(out, aliasCases()...)
 		out = append(out, handoverCases(r, 6)...)
+		for i := 0; i < 30; i++ {
+			out = append(out, isolateCase(r))
+		}
 		for i := 0; i < 10; i++ {
 			for _, o := range hammerObjs {
 				out = append(out, fmt.Sprintf("mode=hammer obj=%s n=%d calls=%d", o, 2+r.Intn(31), 500+r.Intn(12000)))
